@@ -365,13 +365,16 @@ def tr_is_model_valid(tree):
     if len(body) != 1 or not isinstance(body[0], ast.Return):
         raise TranslateError("is_model_valid: expected a single return")
     e = body[0].value
+    want_op = ast.NotIn
+    if isinstance(e, ast.UnaryOp) and isinstance(e.op, ast.Not):  # not (<literal> in x)
+        e, want_op = e.operand, ast.In
     ok = (
-        isinstance(e, ast.Compare) and len(e.ops) == 1 and isinstance(e.ops[0], ast.NotIn)
+        isinstance(e, ast.Compare) and len(e.ops) == 1 and isinstance(e.ops[0], want_op)
         and isinstance(e.left, ast.Constant) and isinstance(e.left.value, str)
         and isinstance(e.comparators[0], ast.Name) and e.comparators[0].id == fn.args.args[0].arg
     )
     if not ok:
-        raise TranslateError(f"is_model_valid: expected `<literal> not in {fn.args.args[0].arg}`, got {ast.unparse(e)!r}")
+        raise TranslateError(f"is_model_valid: expected `<literal> not in {fn.args.args[0].arg}`, got {ast.unparse(body[0].value)!r}")
     return e.left.value
 
 
